@@ -252,16 +252,32 @@ async fn scenario(name: &str) -> Result<String, String> {
 
 /// child process for the signal scenarios: a server with OS signals enabled
 pub fn child() {
+    // `e2e_child c`: the server has handled other commands (a pause and a resume, both acknowledged) before the signal arrives
+    let cmds_first = std::env::args().nth(2).as_deref() == Some("c");
     let sys = actix_rt::System::new();
     sys.block_on(async {
         let (srv, addr) = build(1, 30, true);
-        println!("READY {}", addr.port());
-        let _ = srv.await;
+        if cmds_first {
+            let h = srv.handle();
+            let st = actix_rt::spawn(srv);
+            h.pause().await;
+            h.resume().await;
+            println!("READY {}", addr.port());
+            let _ = st.await;
+        } else {
+            println!("READY {}", addr.port());
+            let _ = srv.await;
+        }
     });
     println!("SERVER_DONE");
 }
 
 fn signal_scenario(name: &str) -> Result<String, String> {
+    // "<scenario>_c": the same after a pause() and a resume() have been handled
+    let (name, cmds_first) = match name.strip_suffix("_c") {
+        Some(n) => (n, true),
+        None => (name, false),
+    };
     let (sig, held, graceful) = match name {
         "signal_int" => (libc::SIGINT, true, false),
         "signal_quit" => (libc::SIGQUIT, true, false),
@@ -272,6 +288,7 @@ fn signal_scenario(name: &str) -> Result<String, String> {
     let exe = std::env::current_exe().map_err(|e| e.to_string())?;
     let mut ch = Command::new(exe)
         .arg("e2e_child")
+        .arg(if cmds_first { "c" } else { "-" })
         .stdout(Stdio::piped())
         .stderr(Stdio::null())
         .spawn()
